@@ -143,3 +143,57 @@ func staticSingleSender(eng *Engine) (string, bool, string) {
 	}
 	return "C14.static.single_sender", ok, fmt.Sprintf("senders=%v %s", list, strings.Join(notes, "; "))
 }
+
+// staticStateAtomic: the premise "State methods are mutex-atomic" of the sequential reduction. Every function that
+// loads or stores State.height / State.view (a) belongs to package state, (b) takes the State's own lock (Lock or
+// RLock on the embedded RWMutex) before the first access and (c) HeightView(), which hands out the observable pair,
+// reads both fields itself (one critical section) instead of composing other accessors.
+func staticStateAtomic(eng *Engine) (string, bool, string) {
+	ok := true
+	var notes []string
+	stateT := repoPkg + "/state.State"
+	for _, f := range repoFunctions(eng) {
+		touches := map[string]bool{}
+		locks := false
+		for _, b := range f.Blocks {
+			for _, in := range b.Instrs {
+				switch in := in.(type) {
+				case *ssa.FieldAddr:
+					if sn, fn, isF := fieldOf(in); isF && sn == stateT && (fn == "height" || fn == "view") {
+						touches[fn] = true
+					}
+				case ssa.CallInstruction:
+					if callee := in.Common().StaticCallee(); callee != nil {
+						n := callee.String()
+						if n == "(*sync.RWMutex).Lock" || n == "(*sync.RWMutex).RLock" {
+							locks = true
+						}
+					}
+				}
+			}
+		}
+		if len(touches) == 0 {
+			if f.Name() == "HeightView" && f.Pkg != nil && f.Pkg.Pkg.Path() == repoPkg+"/state" && f.Signature.Recv() != nil && strings.HasSuffix(f.Signature.Recv().Type().String(), "state.State") {
+				ok = false
+				notes = append(notes, "(*State).HeightView does not read the fields itself: the (height, view) pair is not one atomic snapshot")
+			}
+			continue
+		}
+		if f.Name() == "NewState" {
+			continue
+		}
+		if f.Pkg == nil || f.Pkg.Pkg.Path() != repoPkg+"/state" {
+			ok = false
+			notes = append(notes, "State.height/view accessed outside package state: "+f.String())
+		}
+		if !locks {
+			ok = false
+			notes = append(notes, "State.height/view accessed without taking the lock: "+f.String())
+		}
+		if f.Name() == "HeightView" && !(touches["height"] && touches["view"]) {
+			ok = false
+			notes = append(notes, "(*State).HeightView reads only part of the pair under its lock")
+		}
+	}
+	return "C13.static.state_atomic", ok, strings.Join(notes, "; ")
+}
